@@ -157,10 +157,16 @@ type EqOpts struct {
 	// NilStructFresh: a nil struct pointer compares equal to a decoder-created struct
 	// without transmitted fields (what a nil non-optional struct becomes after one trip)
 	NilStructFresh bool
+	// SkipNoCopy: fields declared nocopy are not compared (their bytes are views of an input
+	// buffer that the caller has overwritten since)
+	SkipNoCopy bool
 }
 
 // EqualField compares two field values under the field's spec.
 func EqualField(f *FieldSpec, a, b Val, o EqOpts, path string) *Mismatch {
+	if f.NoCopy && o.SkipNoCopy {
+		return nil
+	}
 	if f.GoPtr {
 		if a.Nil != b.Nil {
 			return &Mismatch{path, nilstr(a.Nil), nilstr(b.Nil)}
@@ -347,6 +353,10 @@ func canonVal(sb *strings.Builder, t *TypeSpec, v Val, o EqOpts) {
 		for _, f := range s.Sorted() {
 			fv := v.St.F[f.ID]
 			fmt.Fprintf(sb, "%d:", f.ID)
+			if f.NoCopy && o.SkipNoCopy {
+				sb.WriteString("nocopy;")
+				continue
+			}
 			if f.GoPtr {
 				if fv.Nil {
 					sb.WriteString("Pnil;")
